@@ -17,9 +17,9 @@
 (* The conformance of the real code is NOT decided here but by             *)
 (* Fn_Glob!RecOK on records of the real functions (props/C28.py).          *)
 (***************************************************************************)
-EXTENDS Fn_Glob
+EXTENDS Fn_Glob, Integers, VerifParams   \* VerifParams: MaxParts, MaxDepth, ListDepth, ListTriples (written by props/C28.py)
 
-Min(S) == CHOOSE x \in S : \A y \in S : x <= y
+MinOf(S) == CHOOSE x \in S : \A y \in S : x <= y
 Strs(p)     == (IF p.abs THEN <<"/">> ELSE <<>>) \o p.comps
 OpParts(pt) == (IF pt.abs THEN <<"/">> ELSE <<>>) \o pt.parts
 Stars(n)    == [j \in 1..n |-> "*"]
@@ -35,7 +35,7 @@ RECURSIVE OpMatch(_, _, _)
 OpMatch(parts, strs, oneStar) ==
   LET dw == {i \in DOMAIN parts : parts[i] = "**"} IN
   IF dw # {}
-  THEN LET pos == Min(dw)
+  THEN LET pos == MinOf(dw)
            hi  == Len(strs) + (IF oneStar THEN 1 ELSE Cardinality(dw))
        IN \E i \in 0..(hi - Len(parts)) :        \* empty when hi < Len(parts)
              hi >= Len(parts) /\
@@ -50,7 +50,7 @@ OpMatch(parts, strs, oneStar) ==
 OpChildMatch(parts, strs, cut) ==
   IF parts[1] # "/" THEN TRUE
   ELSE LET dw    == {i \in DOMAIN parts : parts[i] = "**"}
-           strs2 == IF cut /\ dw # {} /\ Len(strs) >= Min(dw) - 1 THEN SubSeq(strs, 1, Min(dw) - 1) ELSE strs
+           strs2 == IF cut /\ dw # {} /\ Len(strs) >= MinOf(dw) - 1 THEN SubSeq(strs, 1, MinOf(dw) - 1) ELSE strs
            l     == IF Len(strs2) < Len(parts) THEN Len(strs2) ELSE Len(parts)
        IN OpMatch(SubSeq(parts, 1, l), strs2, FALSE)
 
@@ -71,8 +71,8 @@ TwinOpList(pats, strs) ==
 
 ----------------------------------------------------------------------------
 Atoms  == {"a", "*", "**", "[^a]"}
-Pats   == {[neg |-> FALSE, abs |-> a, parts |-> ps] : a \in BOOLEAN, ps \in SeqsUpTo(Atoms, 4)}
-DPaths == Paths({"a", "b"}, 4)
+Pats   == {[neg |-> FALSE, abs |-> a, parts |-> ps] : a \in BOOLEAN, ps \in SeqsUpTo(Atoms, MaxParts)}
+DPaths == Paths({"a", "b"}, MaxDepth)
 Dirs   == {p \in DPaths : Len(p.comps) <= 2}
 Below(d) == {p \in DPaths : p.abs = d.abs /\ Len(p.comps) > Len(d.comps) /\ SubSeq(p.comps, 1, Len(d.comps)) = d.comps}
 
@@ -85,8 +85,8 @@ TwinChild    == \A pt \in Pats : \A d \in Dirs :
 
 LAtoms == {"a", "*", "**"}
 LPats  == {[neg |-> n, abs |-> a, parts |-> ps] : n \in BOOLEAN, a \in BOOLEAN, ps \in SeqsUpTo(LAtoms, 2)}
-Lists  == SeqsUpTo(LPats, 2) \cup {<<x, y, z>> : x \in {q \in LPats : ~q.neg /\ Len(q.parts) = 1}, y \in {q \in LPats : q.neg}, z \in {q \in LPats : ~q.neg /\ q.abs}}
-LPaths == Paths({"a", "b"}, 3)
+Lists  == SeqsUpTo(LPats, 2) \cup IF ~ListTriples THEN {} ELSE {<<x, y, z>> : x \in {q \in LPats : ~q.neg /\ Len(q.parts) = 1}, y \in {q \in LPats : q.neg}, z \in {q \in LPats : ~q.neg /\ q.abs}}
+LPaths == Paths({"a", "b"}, ListDepth)
 LBelow(d) == {p \in LPaths : p.abs = d.abs /\ Len(p.comps) > Len(d.comps) /\ SubSeq(p.comps, 1, Len(d.comps)) = d.comps}
 RefinesList == \A ps \in Lists : \A p \in LPaths :
                  /\ OpList(ps, Strs(p))[1] = Listed(ps, p)
